@@ -36,8 +36,12 @@ def bounds(tier, seed):
 
 
 def cases(tier, seed):
-    for fr in pick_frames(FRAMES, tier, seed):
-        for form in ("1d", "2d", "2d+extra"):
+    frames_forms = [(fr, form) for fr in pick_frames(FRAMES, tier, seed) for form in ("1d", "2d", "2d+extra")]
+    # other representations of the same cloud: Fortran-ordered 2-D arrays, integer dtype (lattice scaled by 4 so that it is
+    # integer valued) for both coordinates or for the easting only
+    frames_forms += [([1.0, 0.0], "2dF"), ([4.0, 0.0], "int"), ([4.0, 0.0], "int_e")]
+    for fr, form in frames_forms:
+        if True:
             for region in REGIONS:
                 for size in SIZES:
                     for st in STEPS:
@@ -45,6 +49,7 @@ def cases(tier, seed):
                             if "shape" in st and adjust == "region":
                                 continue
                             yield dict(kind="roll", frame=fr, cloud="lattice", form=form, region=region, size=size, step=st, adjust=adjust)
+    for fr in pick_frames(FRAMES, tier, seed):
         for k in (1, 2, 3):
             for sub in itertools.combinations(range(len(MARK)), k):
                 for size in (0.5, 1.0):
@@ -52,7 +57,7 @@ def cases(tier, seed):
                         yield dict(kind="roll", frame=fr, cloud=list(sub), form="1d", region=None, size=size, step=st, adjust="spacing")
         centers = [(2.0, 1.5), (0.0, 0.0), (1.25, 2.75), (2.1, 1.3), (-1.0, 5.0)]
         szs = [0.1, 0.5, 1.0, 2.0, 4.0]
-        for form in ("1d", "2d", "2d+extra"):
+        for form in ("1d", "2d", "2d+extra") + (("2dF",) if fr == [1.0, 0.0] else ()):
             for c in centers:
                 for k in (1, 2, 3):
                     for sl in itertools.permutations(szs, k):
@@ -72,8 +77,14 @@ def _cloud(case):
     e = np.array([p[0] * sc + off for p in pts])
     n = np.array([p[1] * sc + off for p in pts])
     form = case["form"]
-    if form != "1d":
+    if form in ("2d", "2d+extra", "2dF"):
         e, n = e.reshape(13, 17), n.reshape(13, 17)
+    if form == "2dF":
+        e, n = np.asfortranarray(e), np.asfortranarray(n)
+    if form == "int":
+        e, n = e.astype(np.int64), n.astype(np.int64)
+    if form == "int_e":
+        e = e.astype(np.int64)
     coords = (e, n)
     if form == "2d+extra":
         coords = (e, n, np.arange(e.size, dtype=float).reshape(e.shape) * 10)
